@@ -170,6 +170,18 @@ UNITS.append(dict(
 ))
 UNITS[-1]["sources"][0]["rules"] = HEAP_RULES + IDX_RULE
 
+# insert(x), unbounded, against the contract of percolateUp
+UNITS.append(dict(
+    name="c11_insert_unbounded", template="C11/insert_unb.c", functions=["ompl::BinaryHeap::insert(const _T&)"],
+    sources=[S("insert", r"Element \*insert\s*\(\s*const _T &data\s*\)", extra=[])],
+    enforce=["heap_insert"], replace=["percolateUp"], backend="cvc5", split="per-property", loop_contracts=False,
+    split_groups=[r"\.bounds\.|\.pointer|\.overflow\.|\.conversion", r"\.assigns\.|loop_assigns", r"\.assertion\.\d+$"],
+    flags=SIFT_FLAGS, timeout=600, level="proof", bound="n <= 65534 elements (16-bit element references); percolateUp by contract",
+    canaries=[dict(name="position_not_recorded", where="body:insert", rx=r"F_position\[element\] = pos;", repl=";", props=[r"precondition", r"postcondition"], timeout=300)],
+))
+UNITS[-1]["sources"][0]["rules"] = HEAP_RULES + IDX_RULE
+UNITS[-1]["sources"][0]["loops"] = {}
+
 # ---------------- layer C: a heap OWNER in the anchor list -- GridB keeps its two heaps in step with the cells (units of C13, 3x3 window) ----------------
 import importlib.util as _ilu, os as _os
 _s13 = _ilu.spec_from_file_location("c13", _os.path.join(_os.path.dirname(__file__), "C13.py")); _C13 = _ilu.module_from_spec(_s13); _s13.loader.exec_module(_C13)
@@ -254,6 +266,7 @@ ASSUMPTIONS = [
     "operator new does not throw; event callbacks do not touch the heap",
     "narrowing conversions size_t -> int / unsigned wrap-around ((pos-1)>>1 at pos 0, size()/2-1 for size<=1) behave as two's complement modular arithmetic",
     "bounded units: N as stated per unit; everything else (contents, positions, arguments, which element) is fully symbolic",
+    "c11_insert_unbounded: the new element is an arbitrary reference not stored at the ghost slots (freshness of operator new); percolateUp is used by contract (proved by c11_percolateUp_unbounded from the same macro PERCOLATE_UP_CONTRACT)",
 ]
 TRUSTED = [
     "extraction rewrite table of units/C11.py (Burstall field maps: p->f => F_f[p]; std::vector => array + size)",
